@@ -3,7 +3,11 @@
    (odc/geo/_blocks.py BlockAssembler.extract / __getitem__).
    The mosaic is an image of unique pixel ids  id(p, y, x) = 1 + x + W*(y + H*p)  (p = plane over the
    extra axes); a present block holds the ids of its region; Extract(window) must be exactly the
-   window of the full mosaic with absent tiles replaced by the fill value.                      *)
+   window of the full mosaic with absent tiles replaced by the fill value.
+   Extract is a FUNCTION of (blocks, window): no history of earlier extractions, and nothing the caller
+   does to the arrays it got back, can change a later answer or the caller's own blocks.  The driver
+   therefore runs half of the cases after an "extract, overwrite the result" history (outcomes
+   input_blocks_were_modified_through_an_earlier_result / a wrong measured window).              *)
 EXTENDS Tiling
 
 Id(H, W, p, y, x) == 1 + x + W * (y + H * p)
